@@ -149,6 +149,20 @@ func freshSlice(v ssa.Value, seen map[ssa.Value]bool) bool {
 	case *ssa.Convert:
 		_, ok := x.Type().Underlying().(*types.Slice)
 		return ok
+	case *ssa.UnOp:
+		// load of a local variable cell (captured by a closure): fresh if everything stored into it is
+		if a, ok := x.X.(*ssa.Alloc); ok && a.Referrers() != nil {
+			n := 0
+			for _, ref := range *a.Referrers() {
+				if st, ok := ref.(*ssa.Store); ok && st.Addr == a {
+					n++
+					if !freshSlice(st.Val, seen) {
+						return false
+					}
+				}
+			}
+			return n > 0
+		}
 	case *ssa.Call:
 		if bi, ok := x.Call.Value.(*ssa.Builtin); ok && bi.Name() == "append" {
 			return freshSlice(x.Call.Args[0], seen)
@@ -200,6 +214,12 @@ func (v *Verifier) directEffectsX(fv *FuncVC, fn *ssa.Function, bodyOnly bool) *
 	if con := v.contracts[fn]; con != nil && con.HasAssigns && !bodyOnly {
 		for _, it := range fv.expandAssigns(con.Assigns, pkgOf(fn)) {
 			switch {
+			case it.Computed:
+				ks, all := v.BodyEffects(fv, fn)
+				for _, k := range ks {
+					d.keys[k] = true
+				}
+				d.all = d.all || all
 			case it.All:
 				d.all = true
 			case it.TypeT != "":
@@ -939,6 +959,9 @@ func (v *Verifier) BodyEffects(fv *FuncVC, fn *ssa.Function) ([]string, bool) {
 		}
 		for k := range d.keys {
 			acc[k] = true
+			if w := os.Getenv("GOCV_WHO"); w != "" && k == w {
+				fmt.Fprintf(os.Stderr, "[who] %s written directly by %s (body effects of %s)\n", k, f, fn)
+			}
 		}
 		stack = append(stack, d.callees...)
 	}
